@@ -379,6 +379,10 @@ def _fold_warp(f):
     except (Refuse, Raised):
         return None
     sets = [t for t in fo.trace if isinstance(t, Sym) and t.fn == "setitem"]
+    from ..fold import escapes
+
+    if escapes(fo.trace, r):
+        return None
     cache = so.fields.get("cache")
     if len(sets) != 1 or not isinstance(cache, Sym) or not {"voxels_src", "valid_voxels"} <= set(cache.kw):
         return None
